@@ -239,7 +239,7 @@ def c06(tier, seed):
     scns += [iter_script(dict(d, ety=e), "C06") for d in descs if d["op"] == "iter_clone" for e in ("plain", "plz")]
     # searching consumers and for_each from every position
     sr = iter_search_scripts([0, 1, 2, 3] if tier == "quick" else [0, 1, 2, 3, 4, 5], "C06")
-    scns += sr + [dict(s, ety="plain") for s in sr if s["d"]["n"] <= 2]
+    scns += sr + [dict(s, ety=e) for s in sr if s["d"]["n"] <= 2 for e in ("plain", "zst")]
     # Clone::clone_from between two iterators, every pair of positions
     cf = iter_clone_from_scripts([0, 1, 2, 3] if tier == "quick" else [0, 1, 2, 3, 4, 5], "C06")
     scns += cf + [dict(s, ety="plain") for s in cf if s["d"]["n"] <= 2]
